@@ -1,4 +1,295 @@
+/-
+C17 — Stochastic rounding.
+"Under a context with k random bits, rounding an unrepresentable number returns one of its two
+representable neighbours and nothing else, a representable number is returned unchanged, and the
+outcome is a function of the operand and the bits drawn.  Counted over all 2^k equally likely
+draws, the number of draws that round away from zero is the operand's distance past the lower
+neighbour measured in units of 2^-k of the gap (rounded as the context's mode says), so the
+expected result is unbiased to within 2^-k of the gap; exactly one draw is consumed per rounding
+of a finite non-zero operand."
+
+Property theorems only; helper lemmas live in `Fpy/Proof/Stochastic.lean`.
+
+Vocabulary: the operand is `x = (-1)^s · c · 2^exp`, `c ≠ 0`; rounding at position `n` drops
+`K = n + 1 - exp` digits; in units of `2^exp` the representable grid is the multiples of `2^K`, the
+lower neighbour is `q = c / 2^K`, the upper one `q + 1`, and the operand lies `ρ = c % 2^K` units
+past the lower neighbour.  `k ≥ 1` random bits are requested (`num_randbits = k`), the draw is
+`r < 2^k`.  `Spec.srNumer rm s c K k` (written `m`) is `ρ · 2^k / 2^K` rounded to an integer as
+mode `rm` says: the distance past the lower neighbour in units of `2^-k` of the gap.
+The model (`RF.roundAtStochastic`) is a pure function of the operand and of the explicit draw `r`,
+so "the outcome is a function of the operand and the bits drawn" is how it is typed; that the real
+code calls the generator exactly once is checked by the Python harness (`harness/c17.py`).
+-/
+import Fpy.Proof.Stochastic
 import Fpy.Model.Num.Ctx
 namespace Fpy.Props.C17
-theorem placeholder : True := trivial
+open Fpy Fpy.Spec
+
+/-! ### The specification numerator `m` is what its name says -/
+
+/-- `m ≤ 2^k`: it is a count of draws out of `2^k`. -/
+theorem sr_numer_le (rm : RM) (s : Bool) (c K k : Nat) : srNumer rm s c K k ≤ 2 ^ k :=
+  srNumer_le rm s c K k
+
+/-- `m / 2^k` differs from the true fraction `ρ / 2^K` of the gap by less than `2^-k`
+(cross-multiplied by `2^k · 2^K`). -/
+theorem sr_numer_close (rm : RM) (s : Bool) (c K k : Nat) :
+    srNumer rm s c K k * 2 ^ K < (c % 2 ^ K) * 2 ^ k + 2 ^ K ∧
+    (c % 2 ^ K) * 2 ^ k < srNumer rm s c K k * 2 ^ K + 2 ^ K :=
+  srNumer_close rm s c K k
+
+/-- with at least as many random bits as dropped digits, `m / 2^k = ρ / 2^K` exactly -/
+theorem sr_numer_enough_bits (rm : RM) (s : Bool) (c K k : Nat) (h : K ≤ k) :
+    srNumer rm s c K k * 2 ^ K = (c % 2 ^ K) * 2 ^ k := by
+  rw [srNumer_high rm s c K k h, Nat.mul_assoc, ← Nat.pow_add]
+  congr 2; omega
+
+/-- a representable operand has `m = 0` -/
+theorem sr_numer_exact (rm : RM) (s : Bool) (c K k : Nat) (h : c % 2 ^ K = 0) :
+    srNumer rm s c K k = 0 :=
+  srNumer_exact rm s c K k h
+
+/-- with fewer random bits than dropped digits, `m` is the `k` rounding digits of the
+extended-precision value `w = roundQuot rm s c (K - k)` (step 4 of `_round_at_stochastic`):
+`w = q · 2^k + m`. -/
+theorem sr_numer_ext (rm : RM) (s : Bool) (c J k : Nat) (hk : 1 ≤ k) :
+    roundQuot rm s c J = c / 2 ^ (J + k) * 2 ^ k + srNumer rm s c (J + k) k :=
+  roundQuot_ext rm s c J k hk
+
+/-! ### Fixed-point shape (`max_p = None`, `min_n = n`) -/
+
+/-- **Pointwise outcome.**  `RealFloat.round(min_n = n, rm, num_randbits = k)` with draw `r`
+returns the upper neighbour exactly when `2^k ≤ r + m`, else the lower one; it never raises and
+sets `inexact` iff digits were lost. -/
+theorem sr_pointwise (x : RF) (n : Int) (rm : RM) (k r : Nat)
+    (hc : x.c ≠ 0) (hle : x.exp ≤ n) (hk : 1 ≤ k) (hr : r < 2 ^ k) :
+    x.round none (some n) rm (some k) r =
+      .ok (⟨x.s, n + 1,
+            if 2 ^ k ≤ r + srNumer rm x.s x.c (n + 1 - x.exp).toNat k
+            then x.c / 2 ^ (n + 1 - x.exp).toNat + 1 else x.c / 2 ^ (n + 1 - x.exp).toNat⟩,
+           { inexact := decide (x.c % 2 ^ (n + 1 - x.exp).toNat ≠ 0) }) := by
+  have hk0 : ¬ (k = 0) := by omega
+  unfold RF.round RF.roundParams
+  simp only [Option.some.injEq, hk0, if_false]
+  rw [roundAtStochastic_eq x none n none rm k r hc hk hle hr,
+      roundAtCore_fixed x n _ hc hle, roundQuot_srMode rm x n k r hr]
+
+/-- the same statement for the inner `_round_at_stochastic` -/
+theorem sr_pointwise_at (x : RF) (n : Int) (rm : RM) (k r : Nat)
+    (hc : x.c ≠ 0) (hle : x.exp ≤ n) (hk : 1 ≤ k) (hr : r < 2 ^ k) :
+    x.roundAtStochastic none n none rm (some k) r false =
+      .ok (⟨x.s, n + 1,
+            if 2 ^ k ≤ r + srNumer rm x.s x.c (n + 1 - x.exp).toNat k
+            then x.c / 2 ^ (n + 1 - x.exp).toNat + 1 else x.c / 2 ^ (n + 1 - x.exp).toNat⟩,
+           { inexact := decide (x.c % 2 ^ (n + 1 - x.exp).toNat ≠ 0) }) := by
+  rw [roundAtStochastic_eq x none n none rm k r hc hk hle hr,
+      roundAtCore_fixed x n _ hc hle, roundQuot_srMode rm x n k r hr]
+
+/-- **One of the two neighbours and nothing else** (same sign, on the grid, quotient `q` or `q+1`). -/
+theorem sr_neighbour (x : RF) (n : Int) (rm : RM) (k r : Nat)
+    (hc : x.c ≠ 0) (hle : x.exp ≤ n) (hk : 1 ≤ k) (hr : r < 2 ^ k) :
+    ∃ y fl, x.round none (some n) rm (some k) r = .ok (y, fl) ∧ y.s = x.s ∧ y.exp = n + 1 ∧
+      (y.c = x.c / 2 ^ (n + 1 - x.exp).toNat ∨ y.c = x.c / 2 ^ (n + 1 - x.exp).toNat + 1) := by
+  refine ⟨_, _, sr_pointwise x n rm k r hc hle hk hr, rfl, rfl, ?_⟩
+  simp only
+  split
+  · exact Or.inr rfl
+  · exact Or.inl rfl
+
+/-- **A representable operand is returned unchanged** (same real number: `q · 2^K = c`), for every
+draw and every mode, and is not flagged inexact. -/
+theorem sr_repr (x : RF) (n : Int) (rm : RM) (k r : Nat)
+    (hc : x.c ≠ 0) (hle : x.exp ≤ n) (hk : 1 ≤ k) (hr : r < 2 ^ k)
+    (hrep : x.c % 2 ^ (n + 1 - x.exp).toNat = 0) :
+    x.round none (some n) rm (some k) r = .ok (⟨x.s, n + 1, x.c / 2 ^ (n + 1 - x.exp).toNat⟩, {}) ∧
+    x.c / 2 ^ (n + 1 - x.exp).toNat * 2 ^ (n + 1 - x.exp).toNat = x.c := by
+  refine ⟨?_, Nat.div_mul_cancel (Nat.dvd_of_mod_eq_zero hrep)⟩
+  rw [sr_pointwise x n rm k r hc hle hk hr, srNumer_exact _ _ _ _ _ hrep]
+  have h : ¬ (2 ^ k ≤ r) := by omega
+  simp [h, hrep]
+
+/-- … and an operand whose digits are all above `n` (zero included) is returned as is. -/
+theorem sr_repr_above (x : RF) (n : Int) (rm : RM) (k r : Nat) (hk : 1 ≤ k) (h : x.exp > n) :
+    ∃ fl, x.round none (some n) rm (some k) r = .ok (x, fl) ∧ fl.inexact = false := by
+  have hk0 : ¬ (k = 0) := by omega
+  unfold RF.round RF.roundParams
+  simp only [Option.some.injEq, hk0, if_false]
+  rw [roundAtStochastic_above x none n none rm k r false h]
+  exact roundAtCore_above x n none .rtz false h
+
+/-- **Counting draws.**  Of the `2^k` equally likely draws, exactly `m` return the upper
+neighbour (the one away from zero); for a representable operand `m = 0`: none does. -/
+theorem sr_count (x : RF) (n : Int) (rm : RM) (k : Nat)
+    (hc : x.c ≠ 0) (hle : x.exp ≤ n) (hk : 1 ≤ k) :
+    (List.range (2 ^ k)).countP (fun r =>
+        decide (((x.round none (some n) rm (some k) r).toOption.map (·.1)) =
+                some ⟨x.s, n + 1, x.c / 2 ^ (n + 1 - x.exp).toNat + 1⟩))
+      = srNumer rm x.s x.c (n + 1 - x.exp).toNat k := by
+  rw [← countP_threshold (srNumer rm x.s x.c (n + 1 - x.exp).toNat k) (2 ^ k) (srNumer_le _ _ _ _ _)]
+  apply List.countP_congr
+  intro r hrm
+  have hr : r < 2 ^ k := List.mem_range.1 hrm
+  rw [sr_pointwise x n rm k r hc hle hk hr]
+  by_cases h : 2 ^ k ≤ r + srNumer rm x.s x.c (n + 1 - x.exp).toNat k
+  · simp [h, Except.toOption]
+  · simp [h, Except.toOption]
+
+/-- … and the remaining `2^k - m` draws return the lower neighbour. -/
+theorem sr_count_toward (x : RF) (n : Int) (rm : RM) (k : Nat)
+    (hc : x.c ≠ 0) (hle : x.exp ≤ n) (hk : 1 ≤ k) :
+    (List.range (2 ^ k)).countP (fun r =>
+        decide (((x.round none (some n) rm (some k) r).toOption.map (·.1)) =
+                some ⟨x.s, n + 1, x.c / 2 ^ (n + 1 - x.exp).toNat⟩))
+      = 2 ^ k - srNumer rm x.s x.c (n + 1 - x.exp).toNat k := by
+  rw [← countP_below_threshold (srNumer rm x.s x.c (n + 1 - x.exp).toNat k) (2 ^ k)]
+  apply List.countP_congr
+  intro r hrm
+  have hr : r < 2 ^ k := List.mem_range.1 hrm
+  rw [sr_pointwise x n rm k r hc hle hk hr]
+  by_cases h : 2 ^ k ≤ r + srNumer rm x.s x.c (n + 1 - x.exp).toNat k
+  · simp [h, Except.toOption]
+  · simp [h, Except.toOption]
+
+/-- **Unbiased to within `2^-k` of the gap.**  (`resultQuot x n rm k r` is the significand of the
+result of draw `r`, defined in `Proof/Stochastic.lean`.)  Summed over all `2^k` draws the results (in units
+of the gap `2^(n+1)`) add up to `2^k · q + m`, i.e. the mean is `q + m / 2^k`, and it differs from
+the operand `c / 2^K` by less than `2^-k` (cross-multiplied by `2^k · 2^K`); with `k ≥ K` random
+bits the mean is the operand exactly. -/
+theorem sr_unbiased (x : RF) (n : Int) (rm : RM) (k : Nat)
+    (hc : x.c ≠ 0) (hle : x.exp ≤ n) (hk : 1 ≤ k) :
+    let K := (n + 1 - x.exp).toNat
+    let S := ((List.range (2 ^ k)).map (resultQuot x n rm k)).sum
+    S = 2 ^ k * (x.c / 2 ^ K) + srNumer rm x.s x.c K k ∧
+    S * 2 ^ K < x.c * 2 ^ k + 2 ^ K ∧ x.c * 2 ^ k < S * 2 ^ K + 2 ^ K ∧
+    (K ≤ k → S * 2 ^ K = x.c * 2 ^ k) := by
+  intro K S
+  have hS : S = 2 ^ k * (x.c / 2 ^ K) + srNumer rm x.s x.c K k := by
+    have h1 : (List.range (2 ^ k)).map (resultQuot x n rm k) =
+        (List.range (2 ^ k)).map (fun r =>
+          if 2 ^ k ≤ r + srNumer rm x.s x.c K k then x.c / 2 ^ K + 1 else x.c / 2 ^ K) := by
+      apply List.map_congr_left
+      intro r hrm
+      have hr : r < 2 ^ k := List.mem_range.1 hrm
+      unfold resultQuot
+      rw [sr_pointwise x n rm k r hc hle hk hr]
+      simp only [Except.toOption, K]
+    simp only [S]
+    rw [h1, sum_threshold _ _ _ (srNumer_le _ _ _ _ _)]
+  rw [hS]
+  exact ⟨rfl, srNumer_mean_close rm x.s x.c K k⟩
+
+/-! ### Deterministic limit and the draw -/
+
+/-- `num_randbits = 0` is deterministic rounding: `round` is `_round_at`, whatever the draw. -/
+theorem sr_k_zero (x : RF) (n : Int) (rm : RM) (r : Nat) (exact : Bool) :
+    x.round none (some n) rm (some 0) r exact = x.roundAtCore none n none rm exact := by
+  unfold RF.round RF.roundParams; simp
+
+theorem sr_k_zero_float (x : RF) (p : Nat) (rm : RM) (r : Nat) (exact : Bool) :
+    x.round (some p) none rm (some 0) r exact = x.roundAtCore (some p) (x.e - p) none rm exact := by
+  unfold RF.round RF.roundParams; simp
+
+/-- **One draw of `k` bits**: the generator is asked for `k` bits (`num_randbits = k`), or for as
+many bits as digits are dropped when `num_randbits = None`; in particular the request does not
+depend on the mode, the draw, or whether the operand is representable.  (That the real code makes
+exactly one request per rounding is observed by the harness.) -/
+theorem sr_one_draw (x : RF) (n : Int) (k : Nat) :
+    x.stochasticBits n (some k) = k ∧ x.stochasticBits n none = (max 0 (n + 1 - x.exp)).toNat :=
+  ⟨rfl, rfl⟩
+
+/-! ### Floating-point shape (`max_p = p`, optional `min_n`) -/
+
+/-- **Float families.**  The rounding position `n = max(nmin, e - p)` depends on the operand
+only; the result keeps the sign, has at most `p` digits, lies above `n`; an operand with no digit
+at or below `n` is returned unchanged; otherwise its magnitude in units of `2^(n+1)` is the upper
+neighbour `q + 1` exactly when `2^k ≤ r + m` and the lower neighbour `q` otherwise (a carry into
+the next binade is the same number re-normalised), and `inexact` is set iff digits were lost. -/
+theorem sr_float (x : RF) (p : Nat) (minN : Option Int) (rm : RM) (k r : Nat)
+    (hc : x.c ≠ 0) (hp : 1 ≤ p) (hk : 1 ≤ k) (hr : r < 2 ^ k) :
+    let n : Int := match minN with | none => x.e - p | some m => max m (x.e - p)
+    ∃ y fl, x.round (some p) minN rm (some k) r = .ok (y, fl) ∧ y.s = x.s ∧ bitLength y.c ≤ p ∧ y.exp > n ∧
+      (x.exp > n → y = x ∧ fl.inexact = false) ∧
+      (x.exp ≤ n →
+        y.c * 2 ^ (y.exp - (n + 1)).toNat =
+          (if 2 ^ k ≤ r + srNumer rm x.s x.c (n + 1 - x.exp).toNat k
+           then x.c / 2 ^ (n + 1 - x.exp).toNat + 1 else x.c / 2 ^ (n + 1 - x.exp).toNat) ∧
+        fl.inexact = decide (x.c % 2 ^ (n + 1 - x.exp).toNat ≠ 0)) :=
+  round_stochastic_float x p minN rm k r hc hp hk hr
+
+/-- **Counting draws, float shape**: exactly `m` of the `2^k` draws give the upper neighbour. -/
+theorem sr_float_count (x : RF) (p : Nat) (minN : Option Int) (rm : RM) (k : Nat)
+    (hc : x.c ≠ 0) (hp : 1 ≤ p) (hk : 1 ≤ k) :
+    let n : Int := match minN with | none => x.e - p | some m => max m (x.e - p)
+    x.exp ≤ n →
+    (List.range (2 ^ k)).countP (fun r =>
+        decide (floatQuot x p minN rm k n r = x.c / 2 ^ (n + 1 - x.exp).toNat + 1))
+      = srNumer rm x.s x.c (n + 1 - x.exp).toNat k := by
+  intro n hle
+  rw [← countP_threshold (srNumer rm x.s x.c (n + 1 - x.exp).toNat k) (2 ^ k) (srNumer_le _ _ _ _ _)]
+  apply List.countP_congr
+  intro r hrm
+  have hr : r < 2 ^ k := List.mem_range.1 hrm
+  rw [floatQuot_eq x p minN rm k r n rfl hc hp hk hr hle]
+  by_cases h : 2 ^ k ≤ r + srNumer rm x.s x.c (n + 1 - x.exp).toNat k <;> simp [h]
+
+/-- **Unbiased to within `2^-k` of the gap, float shape.** -/
+theorem sr_float_unbiased (x : RF) (p : Nat) (minN : Option Int) (rm : RM) (k : Nat)
+    (hc : x.c ≠ 0) (hp : 1 ≤ p) (hk : 1 ≤ k) :
+    let n : Int := match minN with | none => x.e - p | some m => max m (x.e - p)
+    let K := (n + 1 - x.exp).toNat
+    let S := ((List.range (2 ^ k)).map (floatQuot x p minN rm k n)).sum
+    x.exp ≤ n →
+    S = 2 ^ k * (x.c / 2 ^ K) + srNumer rm x.s x.c K k ∧
+    S * 2 ^ K < x.c * 2 ^ k + 2 ^ K ∧ x.c * 2 ^ k < S * 2 ^ K + 2 ^ K ∧
+    (K ≤ k → S * 2 ^ K = x.c * 2 ^ k) := by
+  intro n K S hle
+  have hS : S = 2 ^ k * (x.c / 2 ^ K) + srNumer rm x.s x.c K k := by
+    have h1 : (List.range (2 ^ k)).map (floatQuot x p minN rm k n) =
+        (List.range (2 ^ k)).map (fun r =>
+          if 2 ^ k ≤ r + srNumer rm x.s x.c K k then x.c / 2 ^ K + 1 else x.c / 2 ^ K) := by
+      apply List.map_congr_left
+      intro r hrm
+      exact floatQuot_eq x p minN rm k r n rfl hc hp hk (List.mem_range.1 hrm) hle
+    simp only [S]
+    rw [h1, sum_threshold _ _ _ (srNumer_le _ _ _ _ _)]
+  rw [hS]
+  exact ⟨rfl, srNumer_mean_close rm x.s x.c K k⟩
+
+/-! Non-vacuity: concrete operands meeting the hypotheses, evaluated by the kernel. -/
+
+-- 13 = 0b1101 rounded at n = 1 (K = 2 digits dropped, q = 3, ρ = 1) with k = 2 bits: m = 1
+example : (⟨false, 0, 13⟩ : RF).c ≠ 0 ∧ (⟨false, 0, 13⟩ : RF).exp ≤ (1 : Int) ∧ 1 ≤ 2 ∧ 3 < 2 ^ 2 ∧
+    (13 % 2 ^ ((1 : Int) + 1 - 0).toNat ≠ 0) := by decide
+example : srNumer .rne false 13 2 2 = 1 ∧ srNumer .rne false 13 3 1 = 1 ∧ srNumer .raz false 13 3 1 = 2 ∧
+    srNumer .rtz false 13 3 2 = 2 ∧ srNumer .rne false 13 3 2 = 2 ∧ srNumer .rna false 13 3 2 = 3 ∧ srNumer .rne false 12 2 5 = 0 := by decide
+example : ((⟨false, 0, 13⟩ : RF).round none (some 1) .rne (some 2) 2).toOption
+    = some (⟨false, 2, 3⟩, { inexact := true }) := by decide
+example : ((⟨false, 0, 13⟩ : RF).round none (some 1) .rne (some 2) 3).toOption
+    = some (⟨false, 2, 4⟩, { inexact := true }) := by decide
+-- fewer random bits than dropped digits (K = 3, k = 1): the extended value is rounded by the mode
+example : ((⟨true, 0, 13⟩ : RF).round none (some 2) .rne (some 1) 0).toOption
+    = some (⟨true, 3, 1⟩, { inexact := true }) := by decide
+example : ((⟨true, 0, 13⟩ : RF).round none (some 2) .rne (some 1) 1).toOption
+    = some (⟨true, 3, 2⟩, { inexact := true }) := by decide
+-- carry of the rounding digits into the neighbour (m = 2^k): every draw rounds away
+example : ((⟨false, 0, 15⟩ : RF).round none (some 2) .rne (some 1) 0).toOption
+    = some (⟨false, 3, 2⟩, { inexact := true }) := by decide
+-- representable operand: unchanged for every draw
+example : ((⟨false, 0, 12⟩ : RF).round none (some 1) .rne (some 2) 3).toOption
+    = some (⟨false, 2, 3⟩, {}) := by decide
+-- float shape, p = 3: 13 → 12 or 14
+example : ((⟨false, 0, 13⟩ : RF).round (some 3) none .rne (some 2) 1).toOption
+    = some (⟨false, 1, 6⟩, { inexact := true }) := by decide
+example : ((⟨false, 0, 13⟩ : RF).round (some 3) none .rne (some 2) 2).toOption
+    = some (⟨false, 1, 7⟩, { inexact := true }) := by decide
+
+-- float hypotheses: p = 3 puts the rounding position at n = e - p = 0 ≥ exp
+example : (⟨false, 0, 13⟩ : RF).e - (3 : Nat) = 0 ∧ (⟨false, 0, 13⟩ : RF).exp ≤ (0 : Int) := by decide
+-- the counts themselves, evaluated on the model: 1 of 4 draws rounds 13 up to 16 at n = 1 …
+example : (List.range (2 ^ 2)).countP (fun r => decide (resultQuot ⟨false, 0, 13⟩ 1 .rne 2 r = 4)) = 1 ∧
+    ((List.range (2 ^ 2)).map (resultQuot ⟨false, 0, 13⟩ 1 .rne 2)).sum = 13 := by decide
+-- … and 2 of 4 draws round 13 up to 14 with p = 3 (mean 6.5 · 2 = 13: exactly unbiased, k ≥ K)
+example : (List.range (2 ^ 2)).countP (fun r => decide (floatQuot ⟨false, 0, 13⟩ 3 none .rne 2 0 r = 7)) = 2 ∧
+    ((List.range (2 ^ 2)).map (floatQuot ⟨false, 0, 13⟩ 3 none .rne 2 0)).sum = 26 := by decide
+
 end Fpy.Props.C17
